@@ -200,3 +200,6 @@ func must(err error) {
 		os.Exit(2)
 	}
 }
+
+// probesOnly reports whether the run is a search for a failing input (tie lines may be skipped).
+func probesOnly() bool { return os.Getenv("VERIF_PROBES_ONLY") != "" }
